@@ -39,8 +39,12 @@ RULES = {
     "subgraphs switches it off (`include_subgraphs=False`); with the helper's default, a name is matched against every nested body "
     "first-come-first-served, so a name shared by a value inside an If body and a later top-level value selects the nested one and the "
     "extraction by name differs from the extraction by object (KeyError, or a spurious `not properly bounded`)",
+    "R9": "a reference attribute holds no graph (shared rule S18): where the extractor and the implicit-capture analysis dispatch on "
+    "`attr.type == GRAPH / GRAPHS` and read the attribute's graphs, an is_ref() test that skips the attribute comes first - a node of a "
+    "function body may take its branches from attribute parameters (`RefAttr('then_branch', 'p', GRAPH)`); such an attribute holds "
+    "nothing to walk, and a perfectly bounded region (or a function whose implicit captures are asked for) must not end in TypeError",
 }
-FLOORS = {"R1": 1, "R2": 4, "R3": 3, "R4": 2, "R5": 1, "R6": 1, "R7": 1, "R8": 1}
+FLOORS = {"R1": 1, "R2": 4, "R3": 3, "R4": 2, "R5": 1, "R6": 1, "R7": 1, "R8": 1, "R9": 2}
 EXPLANATION = (
     "Return-value provenance of extract(), sibling agreement of the two subgraph-attribute branches, push/pop pairing "
     "and dominance of the boundary validation over the result."
@@ -352,6 +356,10 @@ def run(ctx):
     from ..shared import rule_s14
 
     rule_r8(ctx)
+    from ..shared import rule_s18
+
+    rule_s18(ctx, "R9", lambda name: name.startswith(("onnx_ir._convenience", "onnx_ir.analysis")),
+             "extracting a bounded region that contains such a node, or analysing the implicit captures of such a function, fails instead of answering", floor=2)
 
     rule_s14(ctx, "R7", lambda name: name.startswith(("onnx_ir._convenience", "onnx_ir.analysis", "onnx_ir.traversal")) or name == "onnx_ir._cloner",
              "the second extraction from an edited graph works with the captured values of the first")
